@@ -66,6 +66,7 @@ const R_ALL: &[(&str, Fm)] = &[
     ("ads/foo/bar$important", Fm::Std),
     ("||ads.net^$important,image", Fm::Std),
     ("foo$tag=t1", Fm::Std),
+    ("bar$tag=t2", Fm::Std),
     ("@@foo$tag=t2", Fm::Std),
     ("bar$tag=t1,important", Fm::Std),
     // twins that a structural rule id cannot tell apart (tag only / sign of the domain list only)
@@ -631,9 +632,9 @@ fn diff_fields(a: &Ans, b: &Ans) -> Vec<&'static str> {
 // One case = one (list, configuration); all tag subsets, all loaders, the whole battery
 // ------------------------------------------------------------------------------------------------
 
-const LOADERS: [&str; 3] = ["new-true", "new-false-tags-preset", "holds-other-rules"];
+const LOADERS: [&str; 5] = ["new-true", "new-false-tags-preset", "holds-other-rules", "saved-under-complement-tags", "saved-under-all-tags"];
 
-fn load(kind: usize, bytes0: &[u8], bytes_s: &[u8], tags: &[&str], cfg: Cfg) -> Result<Engine, String> {
+fn load(kind: usize, bytes0: &[u8], bytes_s: &[u8], bytes_other: &[Vec<u8>; 2], tags: &[&str], cfg: Cfg) -> Result<Engine, String> {
     let r = catch(|| -> Result<Engine, String> {
         match kind {
             0 => {
@@ -655,6 +656,19 @@ fn load(kind: usize, bytes0: &[u8], bytes_s: &[u8], tags: &[&str], cfg: Cfg) -> 
                 // buffer taken from the original while it had the same tags enabled; the loader's
                 // own tag set is documented to survive the load
                 e.deserialize(bytes_s).map_err(|e| format!("{:?}", e))?;
+                vh::net::never_discard(&mut e);
+                Ok(e)
+            }
+            3 | 4 => {
+                // the producer had a different tag set enabled when the buffer was taken (the
+                // complement of the receiver's within the tags the list uses / all of them); the
+                // enabled set is not part of the data, the receiver's own set decides
+                let mut e = Engine::new(false);
+                e.use_resources(resources());
+                if !tags.is_empty() {
+                    e.use_tags(tags);
+                }
+                e.deserialize(&bytes_other[kind - 3]).map_err(|e| format!("{:?}", e))?;
                 vh::net::never_discard(&mut e);
                 Ok(e)
             }
@@ -734,6 +748,24 @@ fn check_case(rules: &[RuleRef], cfg: Cfg, bat: &Battery, qs: &[Q], l: &mut Loca
                 }
             }
         };
+        let mut bytes_other: [Vec<u8>; 2] = [bytes0.clone(), bytes0.clone()];
+        if !tags_used.is_empty() {
+            let complement: Vec<&str> = tags_used.iter().copied().filter(|t| !tags.contains(t)).collect();
+            for (k, save_set) in [complement, tags_used.clone()].into_iter().enumerate() {
+                let saved = catch(|| {
+                    let mut p = build(rules, cfg.debug, cfg.optimize, cfg.perm).ok()?;
+                    p.use_tags(&save_set);
+                    p.serialize_raw().ok()
+                });
+                match saved {
+                    Ok(Some(b)) => bytes_other[k] = b,
+                    _ => {
+                        fail(l, "c08.serialize-error".into(), format!("serialize_raw failed with tags {:?} enabled", save_set));
+                        continue;
+                    }
+                }
+            }
+        }
         // the original's answers; the cosmetic answer for example.com provides the third exception set
         let mut dyn_exc: HashSet<String> = HashSet::new();
         let mut expected: Vec<Ans> = Vec::with_capacity(qs.len());
@@ -758,7 +790,11 @@ fn check_case(rules: &[RuleRef], cfg: Cfg, bat: &Battery, qs: &[Q], l: &mut Loca
         // answers of the three loaders
         let mut gots: Vec<Option<Vec<Ans>>> = vec![];
         for kind in 0..LOADERS.len() {
-            let loaded = match load(kind, &bytes0, &bytes_s, &tags, cfg) {
+            if kind >= 3 && tags_used.is_empty() {
+                gots.push(None);
+                continue;
+            }
+            let loaded = match load(kind, &bytes0, &bytes_s, &bytes_other, &tags, cfg) {
                 Ok(e) => e,
                 Err(msg) => {
                     fail(l, format!("c08.load-failed.{}", LOADERS[kind]), format!("deserialize of a buffer produced by serialize_raw failed: {}", msg));
@@ -790,7 +826,7 @@ fn check_case(rules: &[RuleRef], cfg: Cfg, bat: &Battery, qs: &[Q], l: &mut Loca
             }
             // one root cause normally shows in every loader alike: then the loader is not part of
             // the signature; a disagreement confined to some loaders names them
-            let uniform = wrong.len() == LOADERS.len()
+            let uniform = wrong.len() == gots.iter().filter(|g| g.is_some()).count()
                 && wrong.iter().all(|&k| gots[k].as_ref().unwrap()[qi] == gots[wrong[0]].as_ref().unwrap()[qi]);
             for &kind in &wrong {
                 if uniform && kind != wrong[0] {
@@ -1025,7 +1061,7 @@ fn check(ctx: &Ctx) -> i32 {
     });
     ctx.finish(
         "model_checking",
-        "every ordered list without repetition of <= k rules of an 84-rule alphabet covering every network and cosmetic rule shape x debug x optimise x list permission; serialize_raw -> deserialize into Engine::new(true), Engine::new(false) with the tags pre-enabled, and a used engine holding other rules and tags; under every subset of the tags the list uses the whole battery (network requests x 4 types, CSP, url_cosmetic_resources, hidden_class_id_selectors with 3 exception sets) is put to the original and to each loader and compared field by field; a case is non-trivial when the original or the reloaded answer is not the empty answer; states = engines built or loaded, transitions = queries executed, traces_validated = (loader, query) answers compared with the original's",
+        "every ordered list without repetition of <= k rules of an 84-rule alphabet covering every network and cosmetic rule shape x debug x optimise x list permission; serialize_raw -> deserialize into Engine::new(true), Engine::new(false) with the tags pre-enabled, a used engine holding other rules and tags, and (lists with tags) Engine::new(false) with the tags pre-enabled receiving a buffer that was taken while the producer had the complementary / the full tag set enabled; under every subset of the tags the list uses the whole battery (network requests x 4 types, CSP, url_cosmetic_resources, hidden_class_id_selectors with 3 exception sets) is put to the original and to each loader and compared field by field; a case is non-trivial when the original or the reloaded answer is not the empty answer; states = engines built or loaded, transitions = queries executed, traces_validated = (loader, query) answers compared with the original's",
         &[
             "resources are loaded identically on both sides (they are not part of the serialized format)",
             "documented sets are compared as sets; the injected script as a multiset of try-blocks plus a multiset of dependency lines",
